@@ -731,7 +731,12 @@ handshake_waitdns(int dns_fd, char *buf, int buflen, char c1, char c2, int timeo
 			write_dns_error(&q, 1);
 			return -2;
 		}
-		/* rv either 0 or >0, return it as is. */
+		/* rv either 0 or >0, return it as is.
+		   The callers compare the reply with fixed strings: terminate
+		   it, so that they don't read on into what an earlier, longer
+		   (possibly ignored) reply left in the buffer. */
+		if (rv < buflen)
+			buf[rv] = '\0';
 		return rv;
 	}
 
